@@ -79,6 +79,8 @@ def run(ctx):
                 "widening, dominating comparisons or a reviewed table; presence of the explicit limits.  Decides "
                 "these necessary conditions for all inputs; it does NOT prove absence of panics in general.")
     ctx.assume("explicit unwraps on VM invariants (operand stack discipline) are outside the decided clauses")
+    from .c01_slices import check_str_slices
+    check_str_slices(ctx, ctx.program("MAX"))
     for cname in ctx.configs():
         prog = ctx.program(cname)
         tag = "" if cname == "MAX" else "[%s]" % cname
